@@ -133,6 +133,19 @@ class Lexer:
     def __init__(self, file, text):
         self.file, self.s, self.i = file, text, 0
         self.last = 0
+        # `$^` (manual, "$-escapes"): "Requires ninja_required_version to be specified and greater or equal to 1.14 in
+        # the build file".  own = the version this file declared so far; inherited = a file that (transitively) includes
+        # this one had declared a sufficient version when it did so.  Whether an includer's declaration counts for the
+        # included file is not said: both readings are permitted (inherit_reading).  A declaration in a *sibling* file
+        # counts under no reading.
+        self.own_version = None
+        self.inherited = False
+        self.inherit_reading = False
+
+    def newline_escape_ok(self):
+        if self.own_version is not None and self.own_version >= (1, 14):
+            return True
+        return self.inherited and self.inherit_reading
 
     def line(self, pos=None):
         pos = self.last if pos is None else pos
@@ -272,6 +285,8 @@ class Lexer:
                     self.last = start
                     self.err("bad $-escape (literal $ must be written as $$)")
                 if n == "^":
+                    if self.newline_escape_ok():
+                        add("t", "\n"); self.i += 2; continue
                     self.last = start
                     self.err("using $^ escape requires specifying 'ninja_required_version' with version greater or equal 1.14")
                 k = start + 1
@@ -303,17 +318,18 @@ def evaluate(ev, env):
 
 
 class Parser:
-    def __init__(self, files, graph, phony_rule, block_values_see_block=False, paths_see_block=True):
+    def __init__(self, files, graph, phony_rule, block_values_see_block=False, paths_see_block=True, inherit_version=False):
         self.files, self.g, self.phony = files, graph, phony_rule
+        self.inherit_version = inherit_version
         self.block_values_see_block = block_values_see_block
         self.paths_see_block = paths_see_block
 
-    def load(self, name, env, parent_lexer=None, chain=()):
+    def load(self, name, env, parent_lexer=None, chain=(), inherited=False):
         if name not in self.files:
             if parent_lexer:
                 parent_lexer.err("loading '%s': No such file or directory" % name)
             raise ManifestError(name, 0, "loading '%s': No such file or directory" % name)
-        self.parse(name, self.files[name], env, chain + (canon(name),))
+        self.parse(name, self.files[name], env, chain + (canon(name),), inherited)
 
     def expect(self, lx, kind):
         save = (lx.i, lx.last)
@@ -322,8 +338,9 @@ class Parser:
             lx.err("expected %s, got %s" % (kind, t[0]))
         return t
 
-    def parse(self, fname, text, env, chain):
+    def parse(self, fname, text, env, chain, inherited=False):
         lx = Lexer(fname, text)
+        lx.inherited, lx.inherit_reading = inherited, self.inherit_version
         while True:
             kind, word = lx.token()
             if kind == "pool":
@@ -338,6 +355,8 @@ class Parser:
                 lx.unread((lx.last, lx.last))
                 name, ev = self.parse_let(lx)
                 value = evaluate(ev, env)
+                if name == "ninja_required_version":
+                    lx.own_version = parse_version(value)
                 env.vars[name] = value
             elif kind in ("include", "subninja"):
                 ev = lx.eval_string(True)
@@ -345,7 +364,7 @@ class Parser:
                 if canon(path) in chain:
                     lx.err("'%s' includes itself" % path)
                 sub = Env(env) if kind == "subninja" else env
-                self.load(path, sub, lx, chain)
+                self.load(path, sub, lx, chain, (lx.own_version is not None and lx.own_version >= (1, 14)) or lx.inherited)
                 self.expect(lx, "newline")
             elif kind == "error":
                 lx.err("lexing error" if word != "\t" else "tabs are not allowed, use spaces")
@@ -514,11 +533,18 @@ class Parser:
         self.g.edges.append(e)
 
 
-def parse(files, main="build.ninja", block_values_see_block=False, paths_see_block=True):
+def parse_version(v):
+    """major.minor the way ninja reads them (version.cc ParseVersion): leading integers, missing minor = 0."""
+    import re
+    m = re.match(r"\s*(\d*)(?:\.(\d*))?", v)
+    return (int(m.group(1) or 0), int(m.group(2) or 0))
+
+
+def parse(files, main="build.ninja", block_values_see_block=False, paths_see_block=True, inherit_version=False):
     g = Graph()
     g.nodes = set()
     phony = Rule("phony")
-    p = Parser(files, g, phony, block_values_see_block, paths_see_block)
+    p = Parser(files, g, phony, block_values_see_block, paths_see_block, inherit_version)
     top = Env()
     p.load(main, top)
     return g
@@ -527,10 +553,12 @@ def parse(files, main="build.ninja", block_values_see_block=False, paths_see_blo
 def expectations(files):
     """All readings the manual permits: list of dumps / '!error:<file>:<line>' / '!fatal'."""
     res = []
+    uses_newline_escape = any("$^" in t for t in files.values())
     for bv in (False, True):
         for ps in (True, False):
+          for iv in ((False, True) if uses_newline_escape else (False,)):
             try:
-                g = parse(files, block_values_see_block=bv, paths_see_block=ps)
+                g = parse(files, block_values_see_block=bv, paths_see_block=ps, inherit_version=iv)
                 r = g.dump()
             except ManifestError as e:
                 r = "!error:%s:%d:" % (e.file, e.line)
